@@ -1,0 +1,109 @@
+//go:build verif
+// +build verif
+
+package raft
+
+import (
+	pb "github.com/marekgalovic/anndb/protobuf"
+	"github.com/marekgalovic/anndb/storage/wal"
+
+	etcdRaft "github.com/coreos/etcd/raft"
+	uuid "github.com/satori/go.uuid"
+)
+
+// VerifHooks is installed by the verification harness before any server is
+// created. All fields are optional.
+var VerifHooks struct {
+	// WrapWAL may substitute the log store of a group before raft is started.
+	WrapWAL func(nodeId uint64, groupId uuid.UUID, storage wal.WAL) wal.WAL
+	// TransportClient may supply the client used for raft messages self -> peer.
+	TransportClient func(self uint64, peer uint64) pb.RaftTransportClient
+	// Event is called at the marked points of the ready-loop. It may block,
+	// sleep, or end the calling goroutine (runtime.Goexit) to model a crash.
+	Event func(nodeId uint64, groupId uuid.UUID, point string, args ...interface{})
+	// TickC / SnapC return per-group channels the ready-loop also selects on:
+	// a receive on TickC advances raft's logical clock by one tick, a receive
+	// on SnapC runs trySnapshot(lastAppliedIdx, skip).
+	TickC func(nodeId uint64, groupId uuid.UUID) <-chan struct{}
+	SnapC func(nodeId uint64, groupId uuid.UUID) <-chan uint64
+}
+
+type verifSnapshotRequest struct{ skip uint64 }
+
+func verifWrapWAL(nodeId uint64, groupId uuid.UUID, storage wal.WAL) wal.WAL {
+	if f := VerifHooks.WrapWAL; f != nil {
+		return f(nodeId, groupId, storage)
+	}
+	return storage
+}
+
+func verifTransportClient(self uint64, peer uint64) pb.RaftTransportClient {
+	if f := VerifHooks.TransportClient; f != nil {
+		return f(self, peer)
+	}
+	return nil
+}
+
+func verifEvent(group *RaftGroup, point string, args ...interface{}) {
+	if f := VerifHooks.Event; f != nil {
+		f(group.transport.NodeId(), group.id, point, args...)
+	}
+}
+
+func verifTickC(group *RaftGroup) <-chan struct{} {
+	if f := VerifHooks.TickC; f != nil {
+		return f(group.transport.NodeId(), group.id)
+	}
+	return nil
+}
+
+func verifSnapC(group *RaftGroup) <-chan verifSnapshotRequest {
+	f := VerifHooks.SnapC
+	if f == nil {
+		return nil
+	}
+	in := f(group.transport.NodeId(), group.id)
+	if in == nil {
+		return nil
+	}
+	out := make(chan verifSnapshotRequest)
+	go func() {
+		for {
+			select {
+			case skip, ok := <-in:
+				if !ok {
+					return
+				}
+				select {
+				case out <- verifSnapshotRequest{skip}:
+				case <-group.ctx.Done():
+					return
+				}
+			case <-group.ctx.Done():
+				return
+			}
+		}
+	}()
+	return out
+}
+
+// VerifStatus exposes raft's status of the group.
+func (this *RaftGroup) VerifStatus() etcdRaft.Status { return this.raft.Status() }
+
+// VerifCampaign makes the group's node start an election now.
+func (this *RaftGroup) VerifCampaign() error { return this.raft.Campaign(this.ctx) }
+
+func (this *RaftGroup) VerifId() uuid.UUID { return this.id }
+
+func (this *RaftGroup) VerifWAL() wal.WAL { return this.wal }
+
+// VerifGroups lists the raft groups registered with the transport.
+func (this *RaftTransport) VerifGroups() map[uuid.UUID]*RaftGroup {
+	this.groupsMu.RLock()
+	defer this.groupsMu.RUnlock()
+	out := make(map[uuid.UUID]*RaftGroup, len(this.groups))
+	for id, g := range this.groups {
+		out[id] = g
+	}
+	return out
+}
